@@ -320,7 +320,7 @@ func VH_C06_SignedSubsetRoundTrip() {
 
 // VH_C05_C06_C10_BundleFileMutation: a b1/b2 bundle with one covered exchange (2-byte symbolic body) is honestly
 // signed and serialised; then the FILE is mutated - a single bit of the byte at position i flipped (bits 0,5,7 of
-// every 25th position in the quick tier; every bit of every 3rd position thorough), the file truncated at i, or a
+// every 25th position in the quick tier; every bit of every 7th position thorough), the file truncated at i, or a
 // byte inserted at i - and read back with bundle.Read: no panic; if it still reads, NewVerifier succeeds and the
 // covered exchange still verifies, then its status, header fields and decoded body are exactly the signed ones.
 func VH_C05_C06_C10_BundleFileMutation() {
@@ -336,7 +336,7 @@ func VH_C05_C06_C10_BundleFileMutation() {
 	file := w.B
 	stride := 25
 	if vh.Tier() == 1 {
-		stride = 3
+		stride = 7
 	}
 	i := vh.Choose((len(file)+stride-1)/stride) * stride
 	var mutated []byte
